@@ -118,6 +118,8 @@ def make_canary(u):
         out.extend(u.lines[pos:hi])
         pos = hi
         copy = []
+        if fn.get("attr"):
+            copy.append((fn["attr"], "sidecar:canary"))
         renamed = False
         added = False
         for (t, s) in u.lines[lo:hi]:
@@ -138,7 +140,7 @@ def make_canary(u):
                     copy.insert(k, ("    ensures false /*canary*/,", "sidecar:canary"))
                     added = True
                     break
-        start = len(out) + 1
+        start = len(out) + 1 + (1 if fn.get("attr") else 0)
         out.extend(copy)
         canaries.append({"fn": fn["id"], "gen_start": start, "gen_end": len(out), "ok": renamed and added})
     out.extend(u.lines[pos:])
